@@ -175,6 +175,20 @@ impl ElementMap for TransformerContext {
     }
 
     fn get_element_bbox(&self, el: &SvgElement) -> Result<Option<BoundingBox>> {
+        self.element_bbox_at_depth(el, 0)
+    }
+}
+
+impl TransformerContext {
+    /// Bounding box of `el`, following `clip-path` references at most `depth_limit` deep
+    /// (a clipPath may itself be clipped; a cyclic chain must not recurse forever).
+    fn element_bbox_at_depth(&self, el: &SvgElement, depth: u32) -> Result<Option<BoundingBox>> {
+        if depth >= self.config.depth_limit {
+            return Err(SvgdxError::DepthLimitExceeded(
+                depth.saturating_add(1),
+                self.config.depth_limit,
+            ));
+        }
         let target_el = el.get_target_element(self)?;
         let mut el_bbox = target_el.bbox()?;
 
@@ -203,9 +217,10 @@ impl ElementMap for TransformerContext {
             let clip_el = self
                 .get_element(&clip_id)
                 .ok_or(SvgdxError::ReferenceError(clip_id))?;
-            if let ("clipPath", Some(clip_bbox)) =
-                (clip_el.name.as_str(), self.get_element_bbox(clip_el)?)
-            {
+            if let ("clipPath", Some(clip_bbox)) = (
+                clip_el.name.as_str(),
+                self.element_bbox_at_depth(clip_el, depth + 1)?,
+            ) {
                 el_bbox = bbox.intersect(&clip_bbox);
             }
         }
